@@ -18,8 +18,12 @@ for d in ids:
     prop = d.split("-")[0]
     scratch = tempfile.mkdtemp(prefix="seedrerun.", dir="/tmp"); os.rmdir(scratch)
     sh(f"git -C /repo worktree add -q --detach {scratch} HEAD")
-    c, o = sh(f"git apply --3way {patch}", scratch)
-    ok = (c == 0) and ("conflict" not in o.lower())
+    c, o = sh(f"git apply {patch}", scratch)
+    ok = (c == 0)
+    if not ok:
+        sh("git reset -q --hard", scratch)
+        c, o = sh(f"git apply --3way {patch}", scratch)
+        ok = (c == 0) and ("conflict" not in o.lower())
     if ok:
         c, o = sh("go build ./...", scratch); ok = (c == 0)
     if not ok:
